@@ -1,0 +1,7 @@
+//go:build !verif
+// +build !verif
+
+package db
+
+// verifDropWrite is a no-op unless the verification build tag is set.
+func verifDropWrite() bool { return false }
